@@ -48,6 +48,23 @@ class Interp(ExprMixin, StmtMixin):
         sframe = Frame(self.specs, None, None, loc)
         return self.eval(sframe, tree.body)
 
+    def eval_formula(self, expr, env):
+        """Logical evaluation of a specification formula: no forks; the definedness conditions of its
+        arithmetic (no wrap, index in range, ...) are conjoined, so proving it proves them and assuming it
+        (after it was proved) assumes nothing more."""
+        sframe = Frame(self.specs, None, None, dict(env))
+        self.ctx.nofork += 1
+        saved = self.ctx.sides
+        self.ctx.sides = []
+        try:
+            v = zbool(self.ops.truth(self.eval(sframe, ast.parse(expr.strip(), mode="eval").body)))
+            return zand(*(self.ctx.sides + [v]))
+        except NoFork:
+            raise Unsupported("specification formula needs a fork: %s" % expr)
+        finally:
+            self.ctx.nofork -= 1
+            self.ctx.sides = saved
+
     def spec_bool(self, expr, env):
         sframe = Frame(self.specs, None, None, dict(env))
         return zbool(self.ops.truth(self.eval(sframe, ast.parse(expr.strip(), mode="eval").body)))
@@ -104,23 +121,57 @@ class Interp(ExprMixin, StmtMixin):
         saved = frame.locals.get(g.target.id, _MISSING)
         frame.locals[g.target.id] = kv
         self.ctx.nofork += 1
+        saved_sides = self.ctx.sides
+        saved_reads = self.ctx.qreads
+        self.ctx.sides = []
+        self.ctx.qreads = []
+        reads = self.ctx.qreads
         try:
             body = zbool(self.ops.truth(self.eval(frame, gen.elt)))
+            # definedness of the body's arithmetic (no wrap, index in range, ...) is part of the formula
+            body = zand(*(self.ctx.sides + [body]))
         except NoFork:
             raise Unsupported("quantifier body needs a fork/obligation: %s" % ast.unparse(gen.elt))
         finally:
             self.ctx.nofork -= 1
+            self.ctx.sides = saved_sides
+            self.ctx.qreads = saved_reads
             if saved is _MISSING:
                 frame.locals.pop(g.target.id, None)
             else:
                 frame.locals[g.target.id] = saved
         rng = zand(kv >= ops.lift_int(lo), kv < ops.lift_int(hi))
-        pats = self.patterns(body, kv)
+        pats = self.patterns_from_reads(reads, kv)
         if kind == "all":
             f = z3.Implies(rng, body)
             return (z3.ForAll([kv], f, patterns=pats) if pats else z3.ForAll([kv], f),)
         f = zand(rng, body)
         return (z3.Exists([kv], f),)
+
+    def patterns_from_reads(self, reads, kv):
+        """Trigger terms: the array reads / uninterpreted applications recorded while the body was built whose
+        index mentions the bound variable and contains no if-then-else or Boolean structure."""
+        def mentions(e, depth=0):
+            if z3.eq(e, kv):
+                return True
+            if depth > 6:
+                return False
+            return any(mentions(c, depth + 1) for c in e.children())
+
+        def pattern_ok(e, depth=0):
+            if depth > 8:
+                return False
+            if z3.is_app(e) and (e.decl().kind() == z3.Z3_OP_ITE or z3.is_bool(e)):
+                return False
+            return all(pattern_ok(c, depth + 1) for c in e.children())
+
+        uniq = []
+        for t, idx in reads:
+            if mentions(idx) and pattern_ok(idx) and not any(z3.eq(t, u) for u in uniq):
+                if z3.is_app(t) and t.decl().kind() == z3.Z3_OP_SELECT and not (z3.is_const(t.arg(0)) or pattern_ok(t.arg(0))):
+                    continue
+                uniq.append(t)
+        return uniq[:6]
 
     def patterns(self, body, kv):
         """Trigger terms: array reads and uninterpreted applications that mention the bound variable."""
@@ -147,9 +198,15 @@ class Interp(ExprMixin, StmtMixin):
                 return
 
         walk(body)
+
+        def pattern_ok(e):
+            if z3.is_app(e) and (e.decl().kind() == z3.Z3_OP_ITE or z3.is_bool(e)):
+                return False
+            return all(pattern_ok(c) for c in e.children())
+
         uniq = []
         for t in found:
-            if not any(z3.eq(t, u) for u in uniq):
+            if pattern_ok(t) and not any(z3.eq(t, u) for u in uniq):
                 uniq.append(t)
         return uniq[:6]
 
@@ -166,7 +223,11 @@ class Interp(ExprMixin, StmtMixin):
         if isinstance(fn, ClassRef):
             return self.construct(fn, args, kwargs, frame, node)
         if isinstance(fn, UF):
-            return fn.decl(*[self.ops.lift_int(a) for a in args])
+            t = fn.decl(*[self.ops.lift_int(a) for a in args])
+            if self.ctx.qreads is not None and len(args) >= 1:
+                for a in args:
+                    self.ctx.qreads.append((t, self.ops.lift_int(a)))
+            return t
         if isinstance(fn, Choice):
             raise Unsupported("call through a choice of callables at %s" % w)
         if callable(fn):
@@ -254,6 +315,14 @@ class Interp(ExprMixin, StmtMixin):
             return self.apply_contract(contract, f, args, kwargs, w)
         if qual in self.registry.merged_calls and self.ctx.nofork == 0:
             return self.call_merged(f, args, kwargs, w)
+        if self.ctx.nofork and self.ctx.sides is not None:
+            # logical mode: try the fork-free inline first, otherwise summarise all paths of the (pure) function
+            n0 = len(self.ctx.sides)
+            try:
+                return self.inline(f, args, kwargs, w)
+            except NoFork:
+                del self.ctx.sides[n0:]
+                return self.call_merged(f, args, kwargs, w, logical=True)
         return self.inline(f, args, kwargs, w)
 
     def inline(self, f, args, kwargs, w):
@@ -277,16 +346,16 @@ class Interp(ExprMixin, StmtMixin):
         loc = self.bind_args(f.node, args, kwargs, f.modinfo, w)
         self.call_log.append((c.qualname, w))
         for label, expr in c.requires:
-            ctx.oblige("%s/call-pre/%s@%s" % (c.qualname, label, w), self.spec_bool(expr, loc), w, "call-pre")
+            ctx.oblige("%s/call-pre/%s@%s" % (c.qualname, label, w), self.eval_formula(expr, loc), w, "call-pre")
         # exceptional behaviour: raises E iff cond
         for exc, cond in c.raises.items():
-            if ctx.branch(self.spec_bool(cond, loc), w):
+            if ctx.branch(self.eval_formula(cond, loc), w):
                 raise PyRaise(exc, w)
         res = self.fresh_result(c, loc)
         env = dict(loc)
         env["result"] = res
         for label, expr in c.ensures:
-            ctx.assume(self.spec_bool(expr, env))
+            ctx.assume(self.eval_formula(expr, env))
         return res
 
     def fresh_result(self, c, loc):
@@ -318,7 +387,7 @@ class Interp(ExprMixin, StmtMixin):
                 "resolution": ops.int_var(nm + "$r")}
 
     # ------------------------------------------------------------------ merged inline call (ITE summary)
-    def call_merged(self, f, args, kwargs, w):
+    def call_merged(self, f, args, kwargs, w, logical=False):
         """Explore all paths of a small helper and merge them into one summary (strongest postcondition)."""
         ctx = self.ctx
         outer_pc = list(ctx.pc)
@@ -335,6 +404,8 @@ class Interp(ExprMixin, StmtMixin):
                 l[:] = s0
             it = Interp(sctx, self.repo, self.registry, self.specs, self.by_contract, self.extra_globals)
             it.depth = self.depth + 1
+            sctx.nofork = 0
+            sctx.sides = None
             n0 = len(outer_pc)
             try:
                 r = it.inline(f, args, kwargs, w)
@@ -344,16 +415,23 @@ class Interp(ExprMixin, StmtMixin):
             return None
 
         sub.explore(task)
-        # obligations discovered inside the helper belong to the caller's run
-        self.ctx.ex.obligations.extend(sub.obligations)
         self.ctx.ex.branch_checks += sub.branch_checks
         for l, s0 in zip(lists, snap):
             l[:] = s0
         rets = [o for o in outcomes if o[1] == "return"]
         raises = [o for o in outcomes if o[1] == "raise"]
-        for cond, _, exc, _ in raises:
-            if ctx.branch(cond, w):
-                raise PyRaise(exc, w)
+        if logical:
+            # definedness of the summarised function becomes part of the enclosing formula
+            for ob in sub.obligations:
+                ctx.sides.append(z3.Implies(ob.pc, ob.goal))
+            for cond, _, exc, _ in raises:
+                ctx.sides.append(z3.Not(cond))
+        else:
+            # obligations discovered inside the helper belong to the caller's run
+            self.ctx.ex.obligations.extend(sub.obligations)
+            for cond, _, exc, _ in raises:
+                if ctx.branch(cond, w):
+                    raise PyRaise(exc, w)
         if not rets:
             raise Killed()
         # merge: last path is the default
@@ -511,6 +589,23 @@ class Interp(ExprMixin, StmtMixin):
             if not args:
                 return ()
             return tuple(self.concrete_iter(args[0], w))
+        if name == "set":
+            if not args:
+                return set()
+            v = args[0]
+            if isinstance(v, SymList):
+                return SymSetView(v)
+            if isinstance(v, (list, tuple)) and not any(is_z3(x) for x in v):
+                return set(v)
+            raise Unsupported("set(%s) at %s" % (type(v).__name__, w))
+        if name == "sorted":
+            v = args[0]
+            key = kwargs.get("key")
+            if isinstance(v, (list, tuple, set)) and not any(is_z3(x) for x in v) and key is None:
+                return sorted(v, reverse=bool(kwargs.get("reverse", False)))
+            if isinstance(v, SymSetView) and not kwargs.get("reverse"):
+                return self.sorted_set_contract(v.src, key, w)
+            raise Unsupported("sorted(%s) at %s" % (type(v).__name__, w))
         if name == "sum":
             vals = self.concrete_iter(args[0], w)
             cur = args[1] if len(args) > 1 else 0
@@ -537,6 +632,46 @@ class Interp(ExprMixin, StmtMixin):
             return (ops.binop("//", args[0], args[1], w), ops.binop("%", args[0], args[1], w))
         raise Unsupported("builtin %s at %s" % (name, w))
 
+    def sorted_set_contract(self, src, key, w):
+        """Builtin contract (assumption A2): sorted(set(X), key=K) is the enumeration of the element set of X,
+        strictly increasing in K (K must be injective on the elements - obligation of the caller's proof)."""
+        ops, ctx = self.ops, self.ctx
+        nm = ctx.fresh_name("sorted")
+        S = SymList(z3.Array(nm + "$arr", ops.int_sort(), ops.int_sort()), ops.int_var(nm + "$len"))
+        srt = ops.int_sort()
+        pos = z3.Function(nm + "$pos", srt, srt)
+        srcf = z3.Function(nm + "$src", srt, srt)
+        k = ops.int_var(nm + "$k")
+        zero = ops.int_const(0)
+        ctx.assume(S.length >= zero)
+        ctx.assume(S.length <= src.length)
+        ctx.assume(z3.ForAll([k], z3.Implies(zand(k >= zero, k < src.length),
+                                             zand(pos(k) >= zero, pos(k) < S.length, z3.Select(S.arr, pos(k)) == z3.Select(src.arr, k))),
+                             patterns=[z3.Select(src.arr, k), pos(k)]))
+        ctx.assume(z3.ForAll([k], z3.Implies(zand(k >= zero, k < S.length),
+                                             zand(srcf(k) >= zero, srcf(k) < src.length, z3.Select(src.arr, srcf(k)) == z3.Select(S.arr, k))),
+                             patterns=[z3.Select(S.arr, k), srcf(k)]))
+
+        def keyof(e):
+            if key is None:
+                return e
+            return self.logical_call(key, [e], w)
+        one = ops.int_const(1)
+        a, b = keyof(z3.Select(S.arr, k)), keyof(z3.Select(S.arr, k + one))
+        ctx.assume(z3.ForAll([k], z3.Implies(zand(k >= zero, k + one < S.length), a < b), patterns=[z3.Select(S.arr, k)]))
+        self.sorted_lists = getattr(self, "sorted_lists", [])
+        self.sorted_lists.append((S, src, key))
+        return S
+
+    def logical_call(self, fn, args, w):
+        """Value of a call inside a logical formula: the `logical_result` expression of the callee's contract."""
+        if isinstance(fn, FuncRef):
+            c = self.registry.get(fn.qual)
+            if c is not None and getattr(c, "logical_result", None):
+                loc = self.bind_args(fn.node, args, {}, fn.modinfo, w)
+                return self.ops.lift_int(self.eval_spec(c.logical_result, None, loc))
+        raise Unsupported("key function without a logical_result contract at %s" % w)
+
     def isinstance_(self, v, cls, w):
         if isinstance(cls, tuple):
             return zor(*[zbool(self.isinstance_(v, c, w)) for c in cls])
@@ -559,6 +694,13 @@ class Interp(ExprMixin, StmtMixin):
         if isinstance(cls, ClassRef) and isinstance(v, Obj):
             return v.cls == cls.name
         raise Unsupported("isinstance at %s" % w)
+
+
+class SymSetView:
+    """set(X) of a symbolic list, only ever consumed by sorted()."""
+
+    def __init__(self, src):
+        self.src = src
 
 
 _MISSING = object()
